@@ -60,7 +60,7 @@ theorem eopm_step (p : Props) (hp : PropsOk p) (dictSize k : Nat) {s : St} {pos 
       exact hv1.congr rfl rfl rfl rfl rfl
     · exact ⟨hlc, hlp, hpb, ⟨rfl, rfl, rfl, rfl, rfl⟩, by
         simp only [symOps, matchOps, updateMatch, LIT_STATES]; split <;> omega, hwin.congr rfl rfl, hk⟩
-    · exact keep_setSt_rcSet _ _ _ _ _
+    · exact keep_setSt_rcSet _ _ _ _ _ (view_le hv (pre := pre ++ pre2) (by rw [hpre, hpre2]; simp))
   · cases hsym
   · cases hsym
 
@@ -70,7 +70,7 @@ theorem eopm_step (p : Props) (hp : PropsOk p) (dictSize k : Nat) {s : St} {pos 
 def LoopEnd (p : Props) (dictSize k : Nat) (eopm mf : Bool) (tail : List UInt8) (psF : Probs) (s : St)
     (r : EStateM.Result Exit St Unit) (n posF : Nat) (stF : SymSt) (rbF : List UInt8) : Prop :=
   ∃ sF psF' rcF stF', r = .error .streamEnd sF ∧ View sF psF' rcF tail ∧ rcF.code = 0 ∧
-    Sim p dictSize k sF posF stF' rbF ∧ (eopm = false → stF' = stF ∧ psF' = psF) ∧ Keep s sF ∧
+    Sim p dictSize k sF posF stF' rbF ∧ (eopm = false → stF' = stF ∧ psF' = psF ∧ RepOk sF stF) ∧ Keep s sF ∧
     sF.dp.pos = s.dp.pos + n ∧ (eopm = true ∨ mf = true)
 
 /-- the loop filled the dictionary: pending output step `pend` (`m` more bytes), then the symbols `syms2` -/
@@ -132,7 +132,7 @@ theorem symLoop_run (p : Props) (hp : PropsOk p) (dictSize : Nat) (hd : dictSize
         obtain ⟨pre, hpre⟩ := normalizeL_suffix hnorm
         rw [bind_err (bind_err (symPrelude_end ev hv hlim.symm hnorm hcode))]
         refine ⟨rcSet s ps rc' tail.length, ps, rc', st, rfl, view_rcSet hv ps rc' hpre, hcode, ?_,
-          fun _ => ⟨rfl, hpsF⟩, keep_rcSet _ _ _ _, (by simp [symsLen, rcSet]), Or.inr rfl⟩
+          fun _ => ⟨rfl, hpsF, hr⟩, keep_rcSet _ _ _ _ (view_le hv hpre), (by simp [symsLen, rcSet]), Or.inr rfl⟩
         obtain ⟨hlc, hlp, hpb, hst, hstlt, hwin, hk⟩ := hs
         exact ⟨hlc, hlp, hpb, ⟨hst.state, hst.rep0, hst.rep1, hst.rep2, hst.rep3⟩, hstlt, hwin.congr rfl rfl, hk⟩
   | sym :: syms, fuel, s, pos, st, rb, ps, rc, rest, ops, posF, stF, rbF, hs, hr, hv, henc, hc, hB, hfuel => by
@@ -178,7 +178,7 @@ theorem symLoop_run (p : Props) (hp : PropsOk p) (dictSize : Nat) (hd : dictSize
         · -- the output step completes; go on with the next symbol
           obtain ⟨s2, hw, hs2, hsame, hpos2⟩ := doWrite_ok hs1 hpend1 hroom
           rw [bind_bind_ok hw, bind_ok (pure_run _ _)]
-          have hkeep : Keep s s2 := (keep_setSt_rcSet s ps1 rc1 rest1.length (st.next sym)).trans hsame.keep
+          have hkeep : Keep s s2 := (keep_setSt_rcSet s ps1 rc1 rest1.length (st.next sym) (view_le hv hpre)).trans hsame.keep
           have hr2 : RepOk s2 (st.next sym) := fun hl => Nat.lt_of_lt_of_le (hrep hl) hkeep.grow
           have hlim2 : s2.dp.limit = s.dp.limit := hkeep.limit
           have hpos2' : s2.dp.pos = s.dp.pos + sym.len := hpos2
@@ -207,7 +207,7 @@ theorem symLoop_run (p : Props) (hp : PropsOk p) (dictSize : Nat) (hd : dictSize
             omega
           obtain ⟨s2, pend2, rb2, hw, hs2, hpend2, hsame, hpos2⟩ := doWrite_full hs1 hpend1 hroom'
           rw [bind_err (bind_err hw)]
-          have hkeep : Keep s s2 := (keep_setSt_rcSet s ps1 rc1 rest1.length (st.next sym)).trans hsame.keep
+          have hkeep : Keep s s2 := (keep_setSt_rcSet s ps1 rc1 rest1.length (st.next sym) (view_le hv hpre)).trans hsame.keep
           have hpl := hwin.pos_le
           have hmf : mf = false := by
             cases hmf : mf with
